@@ -1,0 +1,6 @@
+//go:build verif
+
+package univariate
+
+// RingPtr returns the ring object f belongs to.
+func (f *Polynomial) RingPtr() *QuotientRing { return f.baseRing }
